@@ -9349,6 +9349,63 @@ func smallWave30(c *core.Ctx, b *ob) {
 			b.addP(props, core.Discharged, key, "-", fmt.Sprintf("%d length-delimited decoders, none slices its input", n))
 		}
 	}
+	// (ab) a protobuf struct tag is wire type, number, label, then options: parseStructTag refuses a
+	// tag only for what it finds in the first three positions. An option it does not know (oneof,
+	// packed, def=…) is kept as an extension — refusing it makes structCodecOf, which ignores tags
+	// that do not parse, fall back to the positional number and the varint encoding for the field.
+	{
+		props := []string{"C12", "C03"}
+		key := "struct-tag:unknown-options-are-not-errors"
+		fn := c.Lookup("proto.parseStructTag")
+		if fn == nil {
+			b.addP(props, core.Undecided, key, "-", "proto.parseStructTag not found")
+		} else {
+			count := map[ssa.Value]int{}
+			for _, blk := range fn.Blocks {
+				for _, in := range blk.Instrs {
+					if bo, ok := in.(*ssa.BinOp); ok && bo.Op == token.EQL {
+						if k, isK := constInt(bo.Y); isK && k >= 0 && k <= 2 {
+							if bt, isB := bo.X.Type().Underlying().(*types.Basic); isB && bt.Kind() == types.Int {
+								count[bo.X]++
+							}
+						}
+					}
+				}
+			}
+			var pos ssa.Value
+			for v, k := range count {
+				if pos == nil || k > count[pos] {
+					pos = v
+				}
+			}
+			if pos == nil || count[pos] < 3 {
+				b.addP(props, core.Undecided, key, c.FuncPos(fn), "parseStructTag does not dispatch on the position of the tag's parts")
+			} else {
+				universe := []int64{0, 1, 2}
+				flow := constFlow(fn, pos, universe)
+				other := uint32(1) << uint(len(universe))
+				n, bad := 0, ""
+				for _, r := range returnsOf(fn) {
+					if len(r.Results) != 2 || isNilConst(r.Results[1]) {
+						continue
+					}
+					n++
+					set, ok := flow[r.Block()]
+					if !ok || set&other != 0 {
+						bad = c.InstrPos(r)
+					}
+				}
+				switch {
+				case n == 0:
+					b.addP(props, core.Undecided, key, c.FuncPos(fn), "parseStructTag returns no error")
+				case bad != "":
+					b.addP(props, core.Violation, key, bad, "parseStructTag returns an error at "+bad+" for something beyond the third part of the tag (an option): structCodecOf ignores a tag that does not parse, so a field tagged fixed64,7,opt,name=id,proto3,oneof is encoded as positional field 2 with a varint — not the message the tag describes")
+				default:
+					b.addP(props, core.Discharged, key, c.FuncPos(fn), fmt.Sprintf("%d error returns, each for the wire type, the number or the label", n))
+				}
+			}
+		}
+	}
 	// (a) zig-zag decoding shifts the unsigned word: (v >> 1) ^ -(v & 1) with a logical shift. On a
 	// value converted to a signed type first the shift carries the sign bit along, and every value
 	// whose zig-zag form has the top bit set (|x| >= 2^30 for sint32) decodes to another number.
